@@ -48,7 +48,7 @@ def apply_op(d, op, world=None):
         else:
             ret = getattr(d, kind)(*op[1:])
     except (ValueError, KeyError, IndexError, TypeError) as e:
-        return (type(e).__name__,)
+        return (type(e).__name__, str(e))
     return ('ok', ret)
 
 
@@ -61,6 +61,16 @@ def op_line(slot, op):
     if kind in ('add_object', 'add_property', 'set_object', 'set_property'):
         return 'dop %d %s %s %s' % (slot, kind, op[1], names(op[2]))
     return 'dop %d %s' % (slot, ' '.join([kind] + [str(x) for x in op[1:]]))
+
+
+def conflict_pairs(message):
+    """The pair list printed in 'conflicting values for object/property pairs: [...]' as 'o:p o:p'."""
+    import ast
+    marker = 'conflicting values for object/property pairs:'
+    if marker not in message:
+        return None
+    pairs = ast.literal_eval(message.split(marker, 1)[1].strip())
+    return ' '.join('%s:%s' % (o, p) for o, p in pairs) or '-'
 
 
 def ret_str(ret):
